@@ -164,9 +164,16 @@ int main(int argc, char** argv) {
         std::vector<double> draws;
         if (job->has("draws"))
             for (auto& d : job->at("draws").a) draws.push_back(d->dbl());
+        // "draws_by_shot": [[...], ...] gives every shot its own list (the draw position restarts with each shot)
+        std::vector<std::vector<double>> drawsByShot;
+        if (job->has("draws_by_shot"))
+            for (auto& l : job->at("draws_by_shot").a) {
+                drawsByShot.emplace_back();
+                for (auto& d : l->a) drawsByShot.back().push_back(d->dbl());
+            }
         size_t drawPos = 0;
         bool drawsExhausted = false;
-        if (job->has("draws"))
+        if (job->has("draws") || job->has("draws_by_shot"))
             runtime::verif::drawProvider() = [&]() {
                 if (drawPos < draws.size())
                     return draws[drawPos++];
@@ -267,6 +274,10 @@ int main(int argc, char** argv) {
                 if (stage == "run") {
                     bool reanalyse = job->has("reanalyse") && job->at("reanalyse").b;
                     for (int s = 0; s < shots + (reanalyse ? 1 : 0); ++s) {
+                        if (!drawsByShot.empty()) {
+                            draws = drawsByShot[std::min<size_t>(s, drawsByShot.size() - 1)];
+                            drawPos = 0;
+                        }
                         if (reanalyse && s == shots)
                             an->analyse(*program);   // analysing an already analysed and executed tree must change nothing
                         {
